@@ -110,7 +110,7 @@ def _slave_case(draw):
     # tables the caller does not name get the documented default: all 65536 addresses, zero
     for k in sorted(blocks):
         if draw(st.integers(0, 5)) == 0:
-            blocks[k] = {'shape': 'default', 'values': [], 'bits': False}
+            blocks[k] = {'shape': 'default', 'values': [], 'bits': k in 'cd'}      # bit tables are written with bits
     zero = draw(st.booleans())
     zero0 = zero
     ops = []
